@@ -61,7 +61,29 @@ pub fn str_kind() -> impl Strategy<Value = StrKind> {
 }
 
 pub fn dn_value() -> impl Strategy<Value = DnValueSpec> {
-	str_kind().prop_flat_map(|kind| text_for(kind, 10).prop_map(move |text| DnValueSpec { kind, text }))
+	dn_value_sized(false)
+}
+
+/// `huge`: also values of 70 000 octets (three length octets). Not for cases that are shown to
+/// webpki, whose DER reader stops at two length octets.
+pub fn dn_value_sized(huge: bool) -> impl Strategy<Value = DnValueSpec> {
+	let sizes = if huge { vec![126usize, 127, 128, 129, 254, 255, 256, 257, 70_000] } else { vec![126usize, 127, 128, 129, 254, 255, 256, 257] };
+	str_kind().prop_flat_map(move |kind| {
+		let sizes = sizes.clone();
+		prop_oneof![
+			// inside the alphabet
+			30 => text_for(kind, 10).prop_map(move |text| DnValueSpec::new(kind, text)),
+			// lengths that cross the short/long form boundaries of DER lengths (127/128, 255/256 octets)
+			1 => (prop::sample::select(sizes), char_for(kind))
+				.prop_map(move |(n, c)| DnValueSpec::new(kind, std::iter::repeat(c).take(n / kind.encode(&c.to_string()).len().max(1) + 1).collect::<String>())),
+			// offered to the constructor although it may lie outside the alphabet
+			2 => (text_for(kind, 6), char_for(StrKind::Utf8), 0usize..7).prop_map(move |(mut text, c, pos)| {
+				let at = text.char_indices().nth(pos).map_or(text.len(), |x| x.0);
+				text.insert(at, c);
+				DnValueSpec { kind, text, attempt: true }
+			}),
+		]
+	})
 }
 
 fn arc() -> impl Strategy<Value = u64> {
@@ -152,7 +174,7 @@ pub fn dn(max: usize, custom_moderate: bool, allow_same_oid: bool) -> BoxedStrat
 	} else {
 		Just(None).boxed()
 	};
-	(vec((dn_type(custom_moderate), dn_value()), 0..=max), same)
+	(vec((dn_type(custom_moderate), dn_value_sized(!custom_moderate)), 0..=max), same)
 		.prop_map(move |(mut v, same)| {
 			if let Some(oid) = same {
 				if let Some(e) = v.first_mut() {
@@ -177,10 +199,18 @@ pub fn dn(max: usize, custom_moderate: bool, allow_same_oid: bool) -> BoxedStrat
 }
 
 pub fn ip_bytes() -> impl Strategy<Value = Hex> {
+	let v6 = |prefix: Vec<u8>| vec(any::<u8>(), 16 - prefix.len()).prop_map(move |rest| [prefix.clone(), rest].concat());
 	prop_oneof![
-		3 => vec(any::<u8>(), 4),
-		3 => vec(any::<u8>(), 16),
-		1 => select(vec![vec![0u8; 4], vec![255u8; 4], vec![127, 0, 0, 1], vec![0u8; 16], vec![255u8; 16]]),
+		6 => vec(any::<u8>(), 4),
+		6 => vec(any::<u8>(), 16),
+		2 => select(vec![vec![0u8; 4], vec![255u8; 4], vec![127, 0, 0, 1], vec![0u8; 16], vec![255u8; 16]]),
+		// IPv6 addresses with special structure: IPv4-mapped, IPv4-compatible, NAT64, loopback, link-local, 6to4
+		2 => v6(vec![0, 0, 0, 0, 0, 0, 0, 0, 0, 0, 0xff, 0xff]),
+		1 => v6(vec![0; 12]),
+		1 => v6(vec![0, 0x64, 0xff, 0x9b, 0, 0, 0, 0, 0, 0, 0, 0]),
+		1 => Just([vec![0u8; 15], vec![1]].concat()),
+		1 => v6(vec![0xfe, 0x80, 0, 0, 0, 0, 0, 0]),
+		1 => v6(vec![0x20, 0x02]),
 	]
 	.prop_map(Hex)
 }
@@ -566,8 +596,16 @@ pub fn cert_spec(o: CertGenOpts) -> BoxedStrategy<CertSpec> {
 			vec(custom_ext(o.moderate_oids), 1..3),
 		),
 	)
-		.prop_map(|(((not_before, not_after), serial, dn, kid, mask), (sans, is_ca, key_usages, ekus, nc, crl_dps, custom))| {
+		.prop_map(|(((not_before, not_after), serial, dn, kid, mask), (mut sans, is_ca, key_usages, ekus, nc, crl_dps, custom))| {
 			let keep = |bit: u8| mask & (1 << bit) != 0;
+			// now and then a list long enough to push enclosing lengths over 127 / 255 / 65535 octets
+			if not_before.nanos % 64 == 1 && !sans.is_empty() {
+				let n = [40usize, 130, 300][(not_before.unix.rem_euclid(3)) as usize];
+				let base = sans.clone();
+				while sans.len() < n {
+					sans.extend(base.iter().cloned());
+				}
+			}
 			CertSpec {
 				not_before,
 				not_after,
